@@ -1973,6 +1973,42 @@ func c11HuntedRules(ctx *Ctx, r *Report) {
 				if c, ok := parents[u].(*ast.CallExpr); ok && callee(info, c) == fmtObj {
 					formatted = true
 				}
+				// or through a local closure every result of which is a formatted class name: formatObjectName(name), or
+				// the fully qualified reference of the branch the name designates
+				if c, ok := parents[u].(*ast.CallExpr); ok && !formatted {
+					if id, ok := ast.Unparen(c.Fun).(*ast.Ident); ok {
+						var lit *ast.FuncLit
+						ast.Inspect(fd.Body, func(q ast.Node) bool {
+							if as, ok := q.(*ast.AssignStmt); ok && len(as.Lhs) == 1 && len(as.Rhs) == 1 {
+								if l, ok := as.Lhs[0].(*ast.Ident); ok && objOf(info, l) == objOf(info, id) {
+									lit, _ = as.Rhs[0].(*ast.FuncLit)
+								}
+							}
+							return true
+						})
+						if lit != nil {
+							all, any := true, false
+							ast.Inspect(lit.Body, func(q ast.Node) bool {
+								rs, ok := q.(*ast.ReturnStmt)
+								if !ok || len(rs.Results) != 1 {
+									return true
+								}
+								any = true
+								rc, ok := ast.Unparen(rs.Results[0]).(*ast.CallExpr)
+								if !ok {
+									all = false
+									return true
+								}
+								f := callee(info, rc)
+								if f == nil || (f != fmtObj && f.Name() != "formatFullyQualifiedRef") {
+									all = false
+								}
+								return true
+							})
+							formatted = all && any
+						}
+					}
+				}
 				r.Check(formatted, "skeleton/python-class-names-formatted", fmt.Sprintf("python.disjunctionFromJSON mapping value #%d", n), u.Pos(), "written through formatObjectName",
 					"disjunctionFromJSON writes a name taken from the discriminator mapping as it is: classes are named formatObjectName(object name) — for an object that is not UpperCamelCase (`cat_event`) from_json refers to a class that does not exist (NameError)")
 			}
